@@ -98,6 +98,10 @@ def gen_case(rng, k, mode):
         c["op"] = {"kind": kind, "max_value": rng.choice([0.01, 0.05, 0.1, 0.3]), "mask": rand_mask(rng)}
     else:
         c["op"] = {"kind": kind}
+    r2 = random.Random(c["seed"] ^ 0xC10 if "seed" in c else len(c["positions"]) * 7919 + int(step * 100))
+    for spec in (c["op"] if isinstance(c["op"], list) else [c["op"]]):
+        if spec["kind"] in ("ball", "sphere", "box", "iso", "aniso", "shape") and r2.random() < 0.35:
+            spec["late"] = True          # built with other settings, then re-tuned through step_size / max_value / mask
     if mode == "scripted":
         t = []
         for _ in range(ndraws(c["op"])):
